@@ -494,7 +494,10 @@ func (ma *mutAnalysis) analyse(fn *ssa.Function, seeds map[ssa.Value]int, nested
 						m := strings.TrimPrefix(name, "(reflect.Value).")
 						if reflectAliasMethods[m] {
 							switch m {
-							case "Index", "MapIndex", "Elem", "MapKeys", "MapRange", "Field", "FieldByName", "FieldByIndex":
+							case "MapKeys", "MapRange":
+								// a fresh slice (iterator) holding copies of the keys
+								lower(x, load(d(args[0]))+1)
+							case "Index", "MapIndex", "Elem", "Field", "FieldByName", "FieldByIndex":
 								lower(x, load(d(args[0])))
 							default:
 								lower(x, d(args[0]))
